@@ -9,6 +9,7 @@ package main
 import (
 	"bufio"
 	"fmt"
+	"net/netip"
 	"sort"
 	"strings"
 	"sync"
@@ -64,6 +65,39 @@ func c01WindowCollisions() [][2]string {
 	})
 
 	return c01CollCache
+}
+
+// c01TextCollisions returns pairs of distinct sequential-table rule texts whose
+// FULL TEXTS have equal FastHash (deterministic birthday search): any index
+// keyed by a 32-bit hash of the rule text would confuse them.
+var (
+	c01TextCollOnce  sync.Once
+	c01TextCollCache [][2]string
+)
+
+func c01TextCollisions() [][2]string {
+	c01TextCollOnce.Do(func() {
+		seen := map[uint32]string{}
+		x := uint64(123456789)
+		for i := 0; i < 1500000 && len(c01TextCollCache) < 12; i++ {
+			x = x*6364136223846793005 + 1442695040888963407
+			a, b, c := (x>>40)%256, (x>>48)%256, (x>>56)%256
+			var t string
+			if i%2 == 0 {
+				t = fmt.Sprintf("||t.co^$client=10.%d.%d.%d", a, b, c)
+			} else {
+				t = fmt.Sprintf("ad$ctag=t%d_%d_%d", a, b, c)
+			}
+			h := filterutil.FastHash(t)
+			if o, ok := seen[h]; ok && o != t && o[:2] == t[:2] {
+				c01TextCollCache = append(c01TextCollCache, [2]string{o, t})
+			} else {
+				seen[h] = t
+			}
+		}
+	})
+
+	return c01TextCollCache
 }
 
 // c01GenRuleText: the rule kinds named by the property.
@@ -124,6 +158,7 @@ type c01Scenario struct {
 	nets    []*rules.NetworkRule
 	texts   []string
 	note    string
+	coll    []string // texts of a text-hash collision pair present in the scenario
 }
 
 func c01BuildScenario(r *rng) *c01Scenario {
@@ -152,6 +187,17 @@ func c01BuildScenario(r *rng) *c01Scenario {
 		l := r.n(nLists)
 		bodies[l] = append(bodies[l], t)
 	}
+	var coll []string
+	if cs := c01TextCollisions(); len(cs) > 0 && r.chance(1, 6) {
+		// two different sequential-table rules whose texts collide under the 32-bit hash
+		pair := pick(r, cs)
+		coll = pair[:]
+		for _, t := range pair {
+			all = append(all, t)
+			l := r.n(nLists)
+			bodies[l] = append(bodies[l], t)
+		}
+	}
 	var lists []filterlist.RuleList
 	var note []string
 	for i, b := range bodies {
@@ -162,7 +208,7 @@ func c01BuildScenario(r *rng) *c01Scenario {
 	if err != nil {
 		panic(err)
 	}
-	sc := &c01Scenario{storage: s, engine: urlfilter.NewNetworkEngine(s), note: strings.Join(note, " ‖ ")}
+	sc := &c01Scenario{storage: s, engine: urlfilter.NewNetworkEngine(s), note: strings.Join(note, " ‖ "), coll: coll}
 	scan := s.NewRuleStorageScanner()
 	var items []string
 	for scan.Scan() {
@@ -226,7 +272,29 @@ func c01Source(r *rng, f *rules.NetworkRule) string {
 	return pick(r, []string{"http://", "https://"}) + pick(r, []string{"", "", "www.", "a.b."}) + d + pick(r, []string{"", "/", "/page"})
 }
 
+// c01AimAt builds a request that satisfies the $client / $ctag value of a
+// text-collision rule (see c01TextCollisions).
+func c01AimAt(r *rng, text string) *rules.Request {
+	var q *rules.Request
+	if strings.HasPrefix(text, "||t.co^$client=") {
+		if r.chance(1, 2) {
+			q = rules.NewRequestForHostname("t.co")
+		} else {
+			q = rules.NewRequest("https://t.co/x", "", pick(r, poolReqTypes))
+		}
+		q.ClientIP = netip.MustParseAddr(strings.TrimPrefix(text, "||t.co^$client="))
+	} else {
+		q = rules.NewRequest("http://"+pick(r, poolDomains)+"/ad", "", pick(r, poolReqTypes))
+		q.SortedClientTags = []string{strings.TrimPrefix(text, "ad$ctag=")}
+	}
+
+	return q
+}
+
 func c01Request(r *rng, sc *c01Scenario) *rules.Request {
+	if len(sc.coll) > 0 && r.chance(1, 2) {
+		return c01AimAt(r, pick(r, sc.coll))
+	}
 	if r.chance(1, 6) {
 		return hostnameRequest(genDNSRequest(r, sc.texts))
 	}
@@ -304,7 +372,8 @@ func c01Gen(r *rng, n int, w *bufio.Writer) {
 
 // op `c01.hash`: filterutil.FastHash / FastHashBetween vs the model (the lookup
 // answers do not depend on the hash values, so the hash model needs its own tie).
-//   c01.hash x<s> i j = <FastHash(s)>:<FastHashBetween(s,i,j) | PANIC>
+//
+//	c01.hash x<s> i j = <FastHash(s)>:<FastHashBetween(s,i,j) | PANIC>
 func init() { gens["c01.hash"] = c01HashGen }
 
 func c01HashGen(r *rng, n int, w *bufio.Writer) {
